@@ -22,7 +22,9 @@
 ; every token lies inside the source
 (define-fun tokIn ((s Str) (t Token)) Bool (and (spanValid (Token.Span t)) (<= (Span.End (Token.Span t)) (Str.len s))))
 (define-fun-rec toksIn ((s Str) (t Seq_Token)) Bool
-  (forall ((j Int)) (! (=> (and (<= 0 j) (< j (Seq_Token.len t))) (tokIn s (Seq_Token.nth t j))) :pattern ((Seq_Token.nth t j)))))
+  (and (forall ((j Int)) (! (=> (and (<= 0 j) (< j (Seq_Token.len t))) (and (tokIn s (Seq_Token.nth t j)) (< (Span.Start (Token.Span (Seq_Token.nth t j))) (Span.End (Token.Span (Seq_Token.nth t j)))))) :pattern ((Seq_Token.nth t j))))
+       ; tokens are in source order and do not overlap
+       (forall ((i Int) (j Int)) (! (=> (and (<= 0 i) (< i j) (< j (Seq_Token.len t))) (<= (Span.End (Token.Span (Seq_Token.nth t i))) (Span.Start (Token.Span (Seq_Token.nth t j))))) :pattern ((Seq_Token.nth t i) (Seq_Token.nth t j))))))
 (lemma toksIn-slice
   (forall ((s Str) (t Seq_Token) (a Int) (b Int))
     (! (=> (and (toksIn s t) (<= 0 a) (<= a b) (<= b (Seq_Token.len t))) (toksIn s (Seq_Token.slice t a b)))
